@@ -39,3 +39,14 @@ def describe(fid):
         if f['id'] == fid:
             return f['description']
     return fid
+
+
+@predicate
+def c11_protocol01(rec):
+    """only the protocol-0 / protocol-1 dumps fail, with TypeError, and nothing else is wrong with the case"""
+    if rec.get('op') != 'pickle' or not rec.get('clauses'):
+        return False
+    if not set(rec['clauses']) <= {'pickle-protocol-0:no-error', 'pickle-protocol-1:no-error'}:
+        return False
+    errs = {l['via']: l['err'] for l in rec['case']['loads']}
+    return errs.get('pickle-protocol-0') == 'Type' and errs.get('pickle-protocol-1') == 'Type'
